@@ -281,12 +281,14 @@ func (c *Collection) CreateIndex(indexName, columnName string, fn func(r Reader)
 	reader := commit.NewReader()
 	for chunk := commit.Chunk(0); int(chunk) < chunks; chunk++ {
 		simYield(c, simIndexBuild, uint32(chunk))
+		simYield(c, simBeforeLock, uint32(chunk))
 		c.slock.Lock(uint(chunk)) // keep commits and readers out of the chunk while it is filled
 		if column.Snapshot(chunk, buffer) {
 			reader.Seek(buffer)
 			index.Apply(chunk, reader)
 		}
 		c.slock.Unlock(uint(chunk))
+		simYield(c, simAfterUnlock, uint32(chunk))
 	}
 
 	return nil
@@ -325,12 +327,14 @@ func (c *Collection) CreateSortIndex(indexName, columnName string) error {
 	reader := commit.NewReader()
 	for chunk := commit.Chunk(0); int(chunk) < chunks; chunk++ {
 		simYield(c, simIndexBuild, uint32(chunk))
+		simYield(c, simBeforeLock, uint32(chunk))
 		c.slock.Lock(uint(chunk)) // keep commits and readers out of the chunk while it is filled
 		if column.Snapshot(chunk, buffer) {
 			reader.Seek(buffer)
 			index.Apply(chunk, reader)
 		}
 		c.slock.Unlock(uint(chunk))
+		simYield(c, simAfterUnlock, uint32(chunk))
 	}
 
 	return nil
